@@ -40,6 +40,8 @@ func emitLine(toks []string) {
 			line, a = runProducerLine(toks)
 		case "cons":
 			line, a = runConsumerLine(toks)
+		case "multi":
+			line, a = runMultiLine(toks)
 		default:
 			line, a = op, "bad-op"
 		}
@@ -330,6 +332,11 @@ func main() {
 		"async " + avar + " 0 0 rr d:3 x:S/n x:E9/n x:S/f2 s:0,0,0,0 s:1,0,0,0 s:2,0,0,0 c",
 		"sync " + svar + " manual x:S/n x:E4/n x:S/p s:0,0,0,8 s:1,0,0,2 s:2,0,0,0 s:3,0,0,1 c",
 		"sync " + svar + " rr d:2 x:S/n x:S/n x:E4/n x:S/n b:0,0,0,0;1,0,0,0;2,0,0,0 b:3,0,0,0;4,0,0,0 s:5,0,0,0 c",
+		// one table of partition counts given to two mocks, then only the sync mock is re-configured / the test reuses its map
+		"multi " + avar + " " + svar + " rr n:0,a n:1,s mk:0,0=4 sp:0,0 sp:1,0 mk:1,0=2 sp:1,1 x:0,S/n x:0,S/n x:0,S/n x:0,S/n x:1,S/n x:1,S/n x:1,S/n " +
+			"s:0,0,0,0,0 s:1,1,0,0,0 s:0,2,0,0,0 s:1,3,0,0,0 s:0,4,0,0,0 s:1,5,0,0,0 s:0,6,0,0,0 c:0 c:1",
+		"multi " + avar + " " + svar + " rr n:0,s mk:0,0=3 sp:0,0 mu:0,0,5 x:0,S/n x:0,S/n x:0,S/n x:0,S/n s:0,0,0,0,0 s:0,1,0,0,0 s:0,2,0,0,0 s:0,3,0,0,0 c:0",
+		"multi " + avar + " " + svar + " cecho n:0,a n:1,a mk:0,- sp:0,0 sp:1,0 mu:0,0,7 mk:1,1=2 sp:1,1 x:0,S/n x:1,S/n s:0,0,0,0,0 s:1,1,0,0,0 s:0,2,1,0,0 c:0 c:1",
 		"cons 8 e:0,0,5 cp:0,0,5 ym:0,0 ym:0,0 ye:0,0,3 rm:0,0 hw re:0,0 pc:0,0 cc",
 		"cons 8 e:0,0,5 e:0,1,-1000 cp:0,0,6 cp:0,1,77 cp:1,1,0 cp:0,0,5 dm:0,0 de:0,0 ym:0,0 ye:0,0,3 cc hw",
 		"cons 1 e:0,0,0 ym:0,0 ym:0,0 pc:0,0 cp:0,0,0 pa:0,0 ym:0,0 rm:0,0 rm:0,0 hw tp pt:1 md:1=0.1 tp pt:1 pt:2",
@@ -337,11 +344,13 @@ func main() {
 		emitLine(strings.Fields(l))
 	}
 	for i := 0; i < n && timeouts <= 3; i++ {
-		switch i % 3 {
+		switch i % 4 {
 		case 0:
 			emitLine(genProducer(rnd, true, avar, svar))
 		case 1:
 			emitLine(genProducer(rnd, false, avar, svar))
+		case 2:
+			emitLine(genMulti(rnd, avar, svar))
 		default:
 			emitLine(genConsumer(rnd))
 		}
@@ -349,6 +358,8 @@ func main() {
 	run.Finish("producer cases: random script (success/error x checker none/passes/fails/fails-on-odd-partition) x inputs (script length -3..+3) x " +
 		"partitioner (manual, hash with arbitrary uint32 hashes, FNV hash, round-robin, custom: error/echo/constant/mixed) x topic partition " +
 		"configuration (default/override, changed between inputs) x Return.Successes/Errors x sequential|2-6 concurrent senders; " +
+		"multi cases: 2-4 async/sync mocks from one Config, SetPartitions from 1-3 map objects the test keeps, changes afterwards and hands to other mocks, " +
+		"re-configuration of single mocks, interleaved with sends (round robin / echo / hash partitioners); " +
 		"consumer cases: random registrations, yields, reads, consumes (right/wrong/any offset, unknown partition), drain demands, every " +
 		"order of partition Close/AsyncClose/consumer Close. non-trivial = distinct op line with at least one success outcome / delivered message")
 }
